@@ -42,8 +42,12 @@ impl BlockDecoder {
         }
 
         // The FEC libraries panic when asked for a source block larger than their code supports:
-        // K_max = 8192 (RFC 5053 section 5.1.2), K'_max = 56403 (RFC 6330 section 5.1.2)
+        // K_max = 8192 (RFC 5053 section 5.1.2), K'_max = 56403 (RFC 6330 section 5.1.2).
+        // Compact No-Code: the ESI of the FEC Payload ID has 16 bits (RFC 5445 section 3.2), a larger
+        // block can never be received and its symbol table (24 bytes per announced symbol, allocated
+        // here from the EXT_FTI of a single packet) would only waste memory
         let max_source_symbols: Option<u32> = match oti.fec_encoding_id {
+            oti::FECEncodingID::NoCode => Some(65536),
             oti::FECEncodingID::Raptor => Some(8192),
             oti::FECEncodingID::RaptorQ => Some(56403),
             _ => None,
